@@ -16,6 +16,7 @@ Case kinds
 import glob
 import json
 import math
+import random
 import os
 import re
 import shutil
@@ -36,6 +37,8 @@ TMP = tempfile.mkdtemp(prefix="c09_")
 _counter = [0]
 
 T_UNITWS = "C09-unit-whitespace"     # known finding: units with white space cannot be stored
+T_TRAILER = "C09-short-block-consumes-trailer"   # finding candidate: a short binary block is accepted when
+                                     # block + trailer hold the announced byte count and only white space remains
 T_BRACES = "C09-label-braces"        # optional stream (VERIF_C09_BRACES=1): the reader strips { and }
 
 # (the stale side-car defect - an older side-car read back as the subregions of a field saved without any -
@@ -224,13 +227,41 @@ def ovf_write(spec):
         L.append(f"# begin: data {dname.lower()}")
     else:
         L.append(f"# Begin: Data {dname}")
-    out = ("\n".join(L) + "\n").encode("utf-8")
+    eol_mode = spec.get("eol", "lf")
+    counter = [0]
+
+    def eol():
+        counter[0] += 1
+        if eol_mode == "crlf":
+            return "\r\n"
+        if eol_mode == "mixed":
+            return "\r\n" if counter[0] % 2 else "\n"
+        return "\n"
+
+    def emit(lines):
+        txt = ""
+        for i, ln in enumerate(lines):
+            if spec.get("trail") and i % 2 == 0 and i > 0:
+                ln = ln + (" \t " if i % 4 == 0 else "  ")
+            txt += ln + eol()
+        return txt
+    if spec.get("comments"):
+        L2 = []
+        for i, ln in enumerate(L):
+            L2.append(ln)
+            if i in (1, 4):
+                L2.append("#")
+            if i == 6:
+                L2.append("## a comment: with a colon")
+                L2.append("## xmin: 12345")
+        L = L2
+    out = emit(L).encode("utf-8")
     vd = spec["valuedim"] if v2 else 3
     pay = spec["payload"]
     if rep == "txt":
         rows = [pay[i:i + vd] for i in range(0, len(pay), vd)]
         trail = " " if spec.get("style") == "mumax" else ""
-        out += "".join(" ".join(repr(float(x)) for x in r) + trail + "\n" for r in rows).encode()
+        out += "".join(" ".join(repr(float(x)) for x in r) + trail + eol() for r in rows).encode()
     else:
         size = 4 if rep == "bin4" else 8
         e = "<" if v2 else ">"
@@ -239,8 +270,8 @@ def ovf_write(spec):
         c = "f" if size == 4 else "d"
         out += struct.pack(e + c, CHECK[size])
         out += struct.pack(e + str(len(pay)) + c, *pay)
-        out += b"\n"
-    out += f"# End: Data {dname}\n# End: Segment\n".encode()
+        out += eol().encode()
+    out += emit([f"# End: Data {dname}", "# End: Segment"]).encode()
     return out
 
 
@@ -615,7 +646,7 @@ def gen_big(rng, tier):
     must = [g_ for g_ in grid if g_[2] == 0 and g_[1] == 3 and C % g_[0] != 0]
     rest = [g_ for g_ in grid if g_ not in must]
     rng.shuffle(rest)
-    pick = must + rest[: (4 if tier == "quick" else 30 - len(must))]
+    pick = must + ([] if tier == "core" else rest[: (4 if tier == "quick" else 30 - len(must))])
     cases = []
     for i, (vd, k, delta, total) in enumerate(pick):
         extend = vd == 3 and i % 2 == 0
@@ -670,12 +701,138 @@ def gen_foreign(rng, tier, version=None, rep=None, maxn=None):
     return dict(version=version, rep=rep, min=[fhex(x) for x in lo], max=[fhex(x) for x in hi],
                 step=[fhex(x) for x in step], nodes=n, meshunit=rng.choice(MUNITS), valuedim=vd,
                 labels=labels, units=units, payload=[fhex(x) for x in pay], style=style,
-                lowercase=rng.random() < 0.15, unit1="A/m")
+                lowercase=rng.random() < 0.15, unit1="A/m",
+                eol=rng.choice(["lf", "lf", "crlf", "mixed"]), trail=rng.random() < 0.3, comments=rng.random() < 0.3)
+
+
+# =============================================================== directed core
+def foreign_fixed(r, version, rep_, vd, **over):
+    while True:
+        sp_ = gen_foreign(r, "quick", version=version, rep=rep_, maxn=2)
+        if sp_["valuedim"] == vd or version == 1:
+            break
+    sp_.update(lowercase=False, eol="lf", trail=False, comments=False)
+    sp_.update(over)
+    return sp_
+
+
+def fixed_field(r, n, nv, **over):
+    """hand-made anisotropic mesh away from the origin, index-coded non-zero values"""
+    p1 = [1.5, -2.0, 0.25]
+    cell = [1.0, 0.5, 0.25]
+    p2 = [a + k * c for a, k, c in zip(p1, n, cell)]
+    cnt = n[0] * n[1] * n[2] * nv
+    fc = dict(exact=True, p1=[fhex(x) for x in p1], p2=[fhex(x) for x in p2], n=list(n), munit="nm", subs=[],
+              nv=nv, vdims=(["a", "b", "c", "d"][:nv] if nv > 1 else None), unit="A/m",
+              vals=[fhex(float(i + 1)) for i in range(cnt)], vcls="index")
+    fc.update(over)
+    return fc
+
+
+def box(fc, i0, i1):
+    """subregion covering cells i0..i1 (exclusive) per axis"""
+    lo = [unhex(x) for x in fc["p1"]]
+    cell = [(unhex(b) - unhex(a)) / k for a, b, k in zip(fc["p1"], fc["p2"], fc["n"])]
+    return [[fhex(l + i * c) for l, i, c in zip(lo, i0, cell)], [fhex(l + i * c) for l, i, c in zip(lo, i1, cell)]]
+
+
+def directed_core():
+    """Seed-, tier- and run-independent cases: one small group per mechanism that a seeded change
+    (/verif/seeded/C09-*) or a repaired defect touched.  Never trimmed."""
+    r = random.Random(424242)
+    core = []
+
+    def both(fc, reps=REPS, extend=False):
+        for rp in reps:
+            core.append(dict(kind="round", field=dict(fc), rep=rp, extend=extend))
+            core.append(dict(kind="write", field=dict(fc), rep=rp, extend=extend))
+    # a1  check value: low-order bits flipped
+    for rp, bits_ in (("bin8", [0, 1, 2, 3, 4, 8, 16, 24, 40, 63]), ("bin4", [0, 1, 2, 8, 31])):
+        for ver in (1, 2):
+            sp_ = foreign_fixed(r, ver, rp, 3)
+            for b_ in bits_:
+                core.append(dict(kind="read", src="foreign", spec=sp_, fault=dict(type="flip", bit=b_)))
+    # a2  header of a mesh away from the origin (xbase, stepsize, min/max)
+    both(fixed_field(r, (2, 3, 1), 1))
+    both(fixed_field(r, (1, 2, 4), 3))
+    # a3  same stem, different extensions; c2  order of overlapping subregions
+    f1 = fixed_field(r, (2, 2, 2), 1)
+    f1["subs"] = [["zeta", *box(f1, (0, 0, 0), (2, 1, 2))], ["alpha", *box(f1, (0, 0, 0), (1, 2, 2))], ["mid", *box(f1, (1, 1, 0), (2, 2, 1))]]
+    f2 = fixed_field(r, (2, 2, 2), 1, unit="T")
+    f3 = dict(f2, subs=[["other", *box(f2, (0, 0, 1), (2, 2, 2))]])
+    for exts in (["ovf", "omf"], ["omf", "ohf"], ["ovf", "ohf"]):
+        for fb in (f2, f3):
+            core.append(dict(kind="state", scen="stems", field=f1, field2=fb, rep="bin8", variant=None, exts=exts, wpath="str"))
+    both(f1, reps=["bin8", "txt"])
+    # stale side-car (repaired): every variant
+    for var, fb in (("over", f2), ("over_subs", f3), ("nosave", f2), ("fresh_none", f2), ("over_other", fixed_field(r, (3, 1, 2), 2))):
+        core.append(dict(kind="state", scen="stale", field=f1, field2=fb, rep="bin4", variant=var, exts=["ovf", "omf"], wpath="Path"))
+    core.append(dict(kind="state", scen="repeat", field=f1, field2=f3, rep="txt", variant=None, exts=["ovf", "omf"], wpath="str"))
+    # b1  float32 overflow and rounding edges in bin4
+    edge = [1e39, -1e300, 3.4028235677973366e38, (2 - 2.0 ** -24) * 2.0 ** 127, -(2 - 2.0 ** -25) * 2.0 ** 127, 2.0 ** -150,
+            3 * 2.0 ** -150, 1 + 2.0 ** -24]
+    both(fixed_field(r, (2, 2, 2), 1, vals=[fhex(x) for x in edge], vcls="edge"), reps=["bin4", "bin8"])
+    # b2  short data blocks / cuts inside the data block (own and foreign files)
+    for rp in ("bin8", "bin4"):
+        sp_ = foreign_fixed(r, 2, rp, 2)
+        fi = fixed_field(r, (2, 1, 2), 2)
+        for k_ in (1, 2, 3):
+            core.append(dict(kind="read", src="foreign", spec=sp_, fault=dict(type="short", k=k_)))
+            core.append(dict(kind="read", src="impl", field=fi, rep=rp, fault=dict(type="short", k=k_)))
+        for fr in (0.0, 0.3, 0.6, 0.9, 1.0):
+            core.append(dict(kind="read", src="impl", field=fi, rep=rp, fault=dict(type="trunc_data", frac=fr)))
+        core.append(dict(kind="read", src="impl", field=fi, rep=rp, fault=None))
+    # b3 / label rules: underscores, non-word characters, prefixes of one another
+    both(fixed_field(r, (2, 1, 1), 3, vdims=["m_x_1", "m_y_2", "a_b_c"]))
+    both(fixed_field(r, (1, 1, 2), 4, vdims=["m", "mx", "m-x", "x_"]), reps=["bin8"])
+    # c1  value counts at multiples of the writer's chunk size
+    core.extend(gen_big(r, "core"))
+    # c3  non-ASCII units and labels (own and foreign files)
+    both(fixed_field(r, (2, 1, 1), 2, vdims=["α", "β"], unit="µT", munit="µm"))
+    for rp in REPS:
+        core.append(dict(kind="read", src="foreign", spec=foreign_fixed(r, 2, rp, 2, meshunit="µm", units=["µT", "µT"], labels=["B_α", "B_β"]), fault=None))
+    # d1  explicit validity masks over non-zero data
+    for nv in (1, 3):
+        for mode in ("array", "callable", "setter"):
+            fv = fixed_field(r, (2, 2, 1), nv)
+            fv["valid"] = dict(mode=mode, mask=[1, 0, 0, 1])
+            both(fv, reps=["bin8"] if mode != "array" else REPS)
+    # d2  extended scalar on an anisotropic mesh;  e3  extend_scalar on vector fields keeps labels
+    both(fixed_field(r, (2, 3, 4), 1), extend=True)
+    both(fixed_field(r, (2, 1, 2), 3, vdims=["p", "q", "r"]), extend=True)
+    both(fixed_field(r, (1, 2, 1), 2, vdims=["p", "q"]), extend=True, reps=["bin8", "txt"])
+    # d3  the unit '1' and other units that look like markers
+    for u in ("1", "0", "none", "NONE"):
+        both(fixed_field(r, (1, 1, 2), 2, unit=u), reps=["bin8"])
+    for rp in REPS:
+        core.append(dict(kind="read", src="foreign", spec=foreign_fixed(r, 2, rp, 3, units=["1", "1", "1"], labels=["m_x", "m_y", "m_z"]), fault=None))
+    # e1  nothing of an earlier file may survive: file with labels/units, then files without
+    for rp in REPS:
+        core.append(dict(kind="read", src="foreign", spec=foreign_fixed(r, 2, rp, 3, labels=["Magnetization_p", "Magnetization_q", "Magnetization_r"], units=["A/m"] * 3, meshunit="um"), fault=None))
+        core.append(dict(kind="read", src="foreign", spec=foreign_fixed(r, 1, rp, 3, meshunit="m"), fault=None))
+        core.append(dict(kind="read", src="foreign", spec=foreign_fixed(r, 2, rp, 3, labels=None, units=None, meshunit="m"), fault=None))
+    # short block whose missing bytes are exactly made up by the trailer (CR LF trailer = 42 bytes)
+    for rp, k_ in (("bin8", 5), ("bin4", 10)):
+        while True:
+            sp_ = foreign_fixed(r, 2, rp, 3, eol="crlf")
+            if len(sp_["payload"]) >= 12:
+                break
+        core.append(dict(kind="read", src="foreign", spec=sp_, fault=dict(type="short", k=k_)))
+    # e2  everything the format allows a foreign writer: CR LF / mixed line ends, trailing blanks, comment lines
+    for rp in REPS:
+        for ver in (1, 2):
+            for fmt in (dict(eol="crlf"), dict(eol="mixed", trail=True), dict(eol="crlf", trail=True, comments=True, style="mumax"),
+                        dict(eol="lf", comments=True, trail=True)):
+                core.append(dict(kind="read", src="foreign", fault=None,
+                                 spec=foreign_fixed(r, ver, rp, 3, meshunit="nm", units=["A/m"] * 3,
+                                                    labels=["Total field_x", "Total field_y", "Total field_z"], **fmt)))
+    return core
 
 
 def generate(rng, tier):
     quick = tier == "quick"
-    cases = []
+    cases = directed_core()          # identical in every run, tier and seed
+    ncore = len(cases)
     nround = 150 if quick else 1200
     for i in range(nround):
         f = gen_field(rng, tier)
@@ -684,7 +841,7 @@ def generate(rng, tier):
         f = gen_field(rng, tier)
         cases.append(dict(kind="write", field=f, rep=REPS[i % 3], extend=(f["nv"] == 1 and rng.random() < 0.4)))
     # argument representations: the same requests with corners / n / paths of other types
-    for c in cases:
+    for c in cases[ncore:]:
         if rng.random() < 0.5:
             dress(rng, c["field"])
     for i in range(10 if quick else 60):
@@ -1055,6 +1212,8 @@ def oracle_roundtrip(fc, rep, extend, o):
                  for k, a, b in fc["subs"]}
     if got_subs != want_subs or len(o["subs"]) != len(fc["subs"]):
         bad.append("subregions")
+    elif [k for k, _, _ in o["subs"]] != [k for k, _, _ in fc["subs"]]:
+        bad.append("subregion-order")          # the order decides which of two overlapping subregions wins
     return bad
 
 
@@ -1245,6 +1404,22 @@ def damage(blob, fault):
     raise ValueError(t)
 
 
+def expected_vdims(labels, vd):
+    """component labels a reader following the documented convention returns for a foreign file:
+    the part after the first '_' (Magnetization_x -> x), words joined by '_', defaults when the file
+    has no labels or they are not unique"""
+    default = None if vd == 1 else (["x", "y", "z"][:vd] if vd <= 3 else [f"v{i}" for i in range(vd)])
+    if labels is None:
+        return default
+    conv = []
+    for t in labels:
+        t = t.split("_", 1)[1] if "_" in t else t
+        conv.append("_".join(t.replace("{", "").replace("}", "").split()))
+    if len(set(conv)) != len(conv):
+        return default
+    return conv
+
+
 def run_read(case):
     fault = case.get("fault")
     path = newpath()
@@ -1257,7 +1432,8 @@ def run_read(case):
             blob, must_reject = damage(ovf_write(spec), fault)
         content = dict(min=spec["min"], max=spec["max"], nodes=spec["nodes"], vd=3 if spec["version"] == 1 else spec["valuedim"],
                        payload=spec["payload"], rep=spec["rep"], meshunit=spec["meshunit"],
-                       units=spec["units"] if spec["version"] == 2 else None)
+                       units=spec["units"] if spec["version"] == 2 else None,
+                       labels=spec["labels"] if spec["version"] == 2 else None)
         label = f"v{spec['version']}|{spec['rep']}|{spec['style']}"
     else:
         fc, rep = case["field"], case["rep"]
@@ -1271,7 +1447,8 @@ def run_read(case):
         if rep == "bin4":
             pay = [f32(x) for x in pay]
         content = dict(min=[min(a, b) for a, b in zip(p1, p2)], max=[max(a, b) for a, b in zip(p1, p2)], nodes=fc["n"],
-                       vd=fc["nv"], payload=pay, rep=rep, meshunit=fc["munit"], units=None)
+                       vd=fc["nv"], payload=pay, rep=rep, meshunit=fc["munit"],
+                       units=[fc["unit"] if fc["unit"] else "None"] * fc["nv"])
         label = f"impl|{rep}"
     with open(path, "wb") as f:
         f.write(blob)
@@ -1302,9 +1479,12 @@ def run_read(case):
                 rep_ = "txt" if content["rep"] == "txt" else "bin8"   # bin4 payloads are already float32 values
                 if len(want) != len(got) or not all(value_ok(rep_, a, b) for a, b in zip(want, got)):
                     oracle.append("foreign-data")
-            if content["units"] and len(set(content["units"])) == 1 and content["units"][0] != "None" \
-                    and obs["unit"] != content["units"][0]:
+            u_ = content["units"]
+            want_unit = u_[0] if (u_ and len(set(u_)) == 1 and u_[0] != "None") else None
+            if obs["unit"] != want_unit:
                 oracle.append("foreign-unit")
+            if "labels" in content and obs["nv"] == vd and obs["vdims"] != expected_vdims(content["labels"], vd):
+                oracle.append("foreign-labels")
     else:
         if must_reject is False:
             oracle.append("valid-file-rejected")
@@ -1325,13 +1505,17 @@ def run_read(case):
             coq = f"CRead {g_file(a)} None {gobs}"
         except ValueError:
             coq = None
+    tags = []
+    if must_reject is True and st == "ok" and a is not None and a["rep"] != "txt" and a.get("complete") \
+            and a["tail_ok"] and blob[a["data_end"]:].strip() == b"":
+        tags.append(T_TRAILER)
     ftype = "none" if not fault else fault["type"]
     region = ""
     if fault and fault["type"] == "trunc" and a is not None:
         region = "hdr" if fault["at"] < a["data_start"] else ("data" if must_reject else "footer")
     key = f"read|{label}|{ftype}|{region}|{st}|{case.get('spec', {}).get('valuedim', '')}"
     return rec("read" if not fault else "fault", case, obs if st != "ok" else dict(accepted=True, n=obs["n"], nv=obs["nv"],
-               vdims=obs["vdims"], unit=obs["unit"]), coq, oracle, key, len(blob) // 8)
+               vdims=obs["vdims"], unit=obs["unit"]), coq, oracle, key, len(blob) // 8, tags)
 
 
 def run_sample(case):
